@@ -421,3 +421,129 @@ Proof.
   - rewrite (rtry_step_other _ _ _ En) in H.
     pose proof (step_others_nondecreasing w o a Hi Ha) as G. rewrite step_fst, H in G. exact G.
 Qed.
+
+(** ** The contract-local invariant over histories with re-entry (C12, C09, C03 rest on it) *)
+Lemma rdispatch_Inv ms : forall w i fail prog w',
+  rdispatch w i fail prog ms = Ok w' -> Inv (market w) -> Inv (market w').
+Proof.
+  induction ms as [|m r IH]; intros w i fail prog w' H I; [simpl in H; inv H; exact I|].
+  cbn [rdispatch] in H. step H; [discriminate|]. step H. rename x into w1.
+  pose proof (dispatch1_static _ _ _ Hb) as (Em & _).
+  assert (I1 : Inv (market w1)) by (rewrite Em; exact I).
+  destruct (to_hostile w m); eapply IH; try exact H; [apply run_Inv, I1 | exact I1].
+Qed.
+
+Theorem rstep_Inv w o prog : Inv (market w) -> Inv (market (fst (rstep w o prog))).
+Proof.
+  intros I. unfold rstep. destruct (rtry_step w o prog) as [[w' out]|] eqn:H; [|exact I]. cbn [fst].
+  destruct (enter w o) as [r|] eqn:En.
+  - rewrite (rtry_step_enter _ _ _ _ En) in H. destruct r as [[[[[w1 sender] fs] m] fail]|]; [|discriminate].
+    assert (Em : market w1 = market w).
+    { destruct o; simpl in En; try discriminate; inversion En as [E']; clear En.
+      - step E'. inv E'. reflexivity.
+      - destruct (kind w token); try discriminate. step E'. inv E'. reflexivity.
+      - destruct (kind w coll); try discriminate. step E'. inv E'. reflexivity. }
+    unfold rrun_market in H. step H. destruct x as [s' out']. step H. inv H.
+    eapply rdispatch_Inv; [exact Hb0|]. simpl. eapply execute_pres; [|exact Hb]. rewrite Em. exact I.
+  - rewrite (rtry_step_other _ _ _ En) in H. pose proof (step_Inv w o I) as G. rewrite step_fst, H in G. exact G.
+Qed.
+
+Theorem rrun_Inv tx : forall w, Inv (market w) -> Inv (market (rrun w tx)).
+Proof.
+  unfold rrun. induction tx as [|t r IH]; cbn [fold_left]; intros w I; [exact I|]. apply IH, rstep_Inv, I.
+Qed.
+
+Theorem reach_wf_with_reentry w tx : initial w ->
+  let s := market (rrun w tx) in
+  (forall k l, In (k, l) (listings s) -> wf_listing k l) /\
+  (forall k b, In (k, b) (buckets s) -> wf_bucket k b).
+Proof.
+  intros [t Ht] s. assert (I : Inv s) by (apply rrun_Inv; eapply Inv_init; exact Ht).
+  split; [apply (inv_l _ I) | apply (inv_b _ I)].
+Qed.
+
+(** ** Whatever every marketplace call preserves, every re-entrant transaction preserves
+
+    The marketplace state after a transaction with re-entry is reached from the state before it
+    by successful [execute] calls only (the transaction's own and the nested ones).  So any
+    reflexive, transitive relation that every successful call establishes between its pre- and
+    post-state — from a state satisfying [Inv] — holds across the whole transaction and across
+    every history of such transactions. *)
+Section Trace.
+  Variable R : mstate -> mstate -> Prop.
+  Hypothesis R_refl : forall s, R s s.
+  Hypothesis R_trans : forall a b c, R a b -> R b c -> R a c.
+  Hypothesis R_exec : forall o e sender fs m s s' out,
+    Inv s -> execute o e sender fs m s = Ok (s', out) -> R s s'.
+
+  Lemma step_R w o : Inv (market w) -> R (market w) (market (fst (step w o))).
+  Proof.
+    intros I. rewrite step_fst. destruct (try_step w o) as [[w' out]|] eqn:H; [|apply R_refl].
+    apply try_step_market in H. destruct H as [-> | (w0 & sender & fs & m & _ & _ & _ & _ & _ & _ & _ & He & _)]; [apply R_refl|].
+    eapply R_exec; eassumption.
+  Qed.
+
+  Lemma run_R ops : forall w, Inv (market w) -> R (market w) (market (run w ops)).
+  Proof.
+    unfold run. induction ops as [|o r IH]; cbn [fold_left]; intros w I; [apply R_refl|].
+    eapply R_trans; [apply step_R, I | apply IH, step_Inv, I].
+  Qed.
+
+  Lemma rdispatch_R ms : forall w i fail prog w',
+    rdispatch w i fail prog ms = Ok w' -> Inv (market w) -> R (market w) (market w').
+  Proof.
+    induction ms as [|m r IH]; intros w i fail prog w' H I; [simpl in H; inv H; apply R_refl|].
+    cbn [rdispatch] in H. step H; [discriminate|]. step H. rename x into w1.
+    pose proof (dispatch1_static _ _ _ Hb) as (Em & _).
+    assert (I1 : Inv (market w1)) by (rewrite Em; exact I). rewrite <- Em.
+    destruct (to_hostile w m).
+    - eapply R_trans; [apply run_R, I1|]. eapply IH; [exact H | apply run_Inv, I1].
+    - eapply IH; [exact H | exact I1].
+  Qed.
+
+  Theorem rstep_R w o prog : Inv (market w) -> R (market w) (market (fst (rstep w o prog))).
+  Proof.
+    intros I. unfold rstep. destruct (rtry_step w o prog) as [[w' out]|] eqn:H; [|apply R_refl]. cbn [fst].
+    destruct (enter w o) as [r|] eqn:En.
+    - rewrite (rtry_step_enter _ _ _ _ En) in H. destruct r as [[[[[w1 sender] fs] m] fail]|]; [|discriminate].
+      assert (Em : market w1 = market w).
+      { destruct o; simpl in En; try discriminate; inversion En as [E']; clear En.
+        - step E'. inv E'. reflexivity.
+        - destruct (kind w token); try discriminate. step E'. inv E'. reflexivity.
+        - destruct (kind w coll); try discriminate. step E'. inv E'. reflexivity. }
+      unfold rrun_market in H. step H. destruct x as [s' out']. step H. inv H.
+      assert (I1 : Inv (market w1)) by (rewrite Em; exact I).
+      rewrite <- Em. eapply R_trans; [eapply R_exec; [exact I1 | exact Hb]|].
+      apply (rdispatch_R _ _ _ _ _ _ Hb0). simpl. eapply execute_pres; [exact I1 | exact Hb].
+    - rewrite (rtry_step_other _ _ _ En) in H. pose proof (step_R w o I) as G. rewrite step_fst, H in G. exact G.
+  Qed.
+
+  Theorem rrun_R tx : forall w, Inv (market w) -> R (market w) (market (rrun w tx)).
+  Proof.
+    unfold rrun. induction tx as [|t r IH]; cbn [fold_left]; intros w I; [apply R_refl|].
+    eapply R_trans; [apply rstep_R, I | apply IH, rstep_Inv, I].
+  Qed.
+End Trace.
+
+(** Instances.  The lifecycle rank of a listing id (unused < preparing < finalized < sold < gone)
+    never decreases (C08, C03), and used ids are never forgotten (C09), across histories with
+    re-entry. *)
+Theorem rrun_rank_mono tx w id :
+  Inv (market w) -> (lrank (market w) id <= lrank (market (rrun w tx)) id)%nat.
+Proof.
+  intros I. apply (rrun_R (fun s s' => (lrank s id <= lrank s' id)%nat)); try assumption.
+  - intros s. lia.
+  - intros a b c H1 H2. lia.
+  - intros o e sender fs m s s' out Is H. eapply execute_rank_mono; eassumption.
+Qed.
+
+Theorem rrun_used_mono tx w :
+  Inv (market w) ->
+  incl (l_used (market w)) (l_used (market (rrun w tx))) /\ incl (b_used (market w)) (b_used (market (rrun w tx))).
+Proof.
+  intros I.
+  apply (rrun_R (fun s s' => incl (l_used s) (l_used s') /\ incl (b_used s) (b_used s'))); try assumption.
+  - intros s. split; apply incl_refl.
+  - intros a b c [A1 A2] [B1 B2]. split; eapply incl_tran; eassumption.
+  - intros o e sender fs m s s' out _ H. eapply execute_used_mono, H.
+Qed.
